@@ -12,6 +12,14 @@ from .attrs import AttrMixin
 REPO = os.environ.get("PYVC_REPO", "/repo")
 
 
+def _res_dtype(a, b):
+    da, db = getattr(a, "dtype", None), getattr(b, "dtype", None)
+    if da is None and db is None:
+        return None
+    from .npmodel import _scalar_result_dtype
+    return _scalar_result_dtype(da, db, a, b)
+
+
 class PathResult:
     def __init__(self):
         self.pc = []  # list of z3 Bool
@@ -205,25 +213,40 @@ class Engine(InterpMixin, AttrMixin):
 
     def floor_div(self, a, b):
         ta, tb = to_term(a), to_term(b)
-        if z3.is_real(ta) or z3.is_real(tb):
-            # float floor division: only for integral-valued operands
-            raise Unsupported("floor division on reals")
-        if not self.truth(b != 0):
-            raise self.pyraise(ZeroDivisionError, "integer division or modulo by zero")
         npv = (isinstance(a, Sym) and a.np) or (isinstance(b, Sym) and b.np)
+        dt = _res_dtype(a, b)
+        if z3.is_real(ta) or z3.is_real(tb):
+            ta = z3.ToReal(ta) if z3.is_int(ta) else ta
+            tb = z3.ToReal(tb) if z3.is_int(tb) else tb
+            if not self.truth(wrap(tb > 0)):
+                raise Unsupported("float floor division by a non-positive divisor")
+            return wrap(z3.simplify(z3.ToReal(z3.ToInt(ta / tb))), npv, dt)
+        if not self.truth(b != 0):
+            if npv:
+                self.event("np-div-by-zero")
+                return wrap(z3.IntVal(0), True, dt)
+            raise self.pyraise(ZeroDivisionError, "integer division or modulo by zero")
         # z3 div is Euclidean (remainder >= 0); python floors.
         q = z3.If(tb > 0, ta / tb, (-ta) / (-tb))
-        return wrap(z3.simplify(q), npv)
+        return wrap(z3.simplify(q), npv, dt)
 
     def py_mod(self, a, b):
         ta, tb = to_term(a), to_term(b)
-        if z3.is_real(ta) or z3.is_real(tb):
-            raise Unsupported("modulo on reals")
-        if not self.truth(b != 0):
-            raise self.pyraise(ZeroDivisionError, "integer division or modulo by zero")
         npv = (isinstance(a, Sym) and a.np) or (isinstance(b, Sym) and b.np)
+        dt = _res_dtype(a, b)
+        if z3.is_real(ta) or z3.is_real(tb):
+            ta = z3.ToReal(ta) if z3.is_int(ta) else ta
+            tb = z3.ToReal(tb) if z3.is_int(tb) else tb
+            if not self.truth(wrap(tb > 0)):
+                raise Unsupported("float modulo by a non-positive divisor")
+            return wrap(z3.simplify(ta - tb * z3.ToReal(z3.ToInt(ta / tb))), npv, dt)
+        if not self.truth(b != 0):
+            if npv:
+                self.event("np-div-by-zero")
+                return wrap(z3.IntVal(0), True, dt)
+            raise self.pyraise(ZeroDivisionError, "integer division or modulo by zero")
         r = z3.If(tb > 0, ta % tb, -((-ta) % (-tb)))
-        return wrap(z3.simplify(r), npv)
+        return wrap(z3.simplify(r), npv, dt)
 
     def cmp_nonfinite(self, a, o, f):
         # comparison of a finite symbolic number with +-inf / nan constant
